@@ -6,7 +6,7 @@
 base=$1; shift
 scratch=/tmp/repo-c08
 rm -rf $scratch; rsync -a --exclude .git /repo/ $scratch/
-grep -o 'sig=[^ ]*' "$base" | sort -u > /tmp/c08-base-sigs.txt
+grep -o 'sig=[^ ,]*' "$base" | sort -u > /tmp/c08-base-sigs.txt
 for m in "$@"; do
   id=$(basename "$m" .json)
   rsync -a --exclude .git /repo/ $scratch/
@@ -20,7 +20,7 @@ for e in m["edits"]:
 PY
   (cd $scratch && GOFLAGS=-mod=mod GOPROXY=off GOSUMDB=off GOTOOLCHAIN=local go build ./... ) || { echo "$id: DOES-NOT-COMPILE"; continue; }
   (cd /verif && VERIF_REPO=$scratch ./run C08 quick > /tmp/c08-mut-$id.out 2>&1); rc=$?
-  new=$(grep -o 'sig=[^ ]*' /tmp/c08-mut-$id.out | sort -u | comm -13 /tmp/c08-base-sigs.txt - | tr '\n' ' ')
+  new=$(grep -o 'sig=[^ ,]*' /tmp/c08-mut-$id.out | sort -u | comm -13 /tmp/c08-base-sigs.txt - | tr '\n' ' ')
   if [ -n "$new" ]; then echo "$id: DETECTED (exit $rc) new: $new"; else echo "$id: MISSED (exit $rc)"; fi
   if [ -n "$TESTS" ]; then
     pk=$(python3 -c "import json,sys,os; print(' '.join(sorted({'./'+os.path.dirname(e['file'])+'/...' for e in json.load(open(sys.argv[1]))['edits']})))" "$m")
